@@ -6,7 +6,8 @@ CFG = {
                           "RpmVerif.C14.write_prefix_or_all_general", "RpmVerif.C14.write_prefix_or_all_metadata",
                           "RpmVerif.C14.once_counterexample", "RpmVerif.C14.write_failure_offset",
                           "RpmVerif.C14.grouping_independent", "RpmVerif.C14.read_chunk_indep",
-                          "RpmVerif.C14.payload_starts_at", "RpmVerif.C14.truncated_is_error"],
+                          "RpmVerif.C14.payload_starts_at", "RpmVerif.C14.truncated_is_error",
+                          "RpmVerif.C14.write_file_prefix_or_all", "RpmVerif.C14.write_file_old_witness"],
     "trivial_branches": ["noparse"],
     "rule": "scripted Write sinks (accept-all, 1 byte, fixed k in {2,3,7,16,17,...}, seeded random sizes 1..=17, Interrupted every j-th call, "
             "permanent hard error / permanent Ok(0) / one transient hard error once N bytes are in) against Package::write and PackageMetadata::write: EVERY failure offset 0..=len of a ~1.2 KiB "
@@ -15,11 +16,17 @@ CFG = {
             "scripted BufRead sources (same families, direct and through BufReader::with_capacity(1..20)) against Package::parse compared with the "
             "plain-slice parse, 20% truncated inputs; truncation at every offset of the ~1.2 KiB package, of every 10th generated package and "
             "(strided in quick) of the assets. Thorough adds a ~4 KiB package (every offset) and a ~40 KiB package (every 97th offset). "
+            "write_file: its body (Package::write, flush()?, drop) over std's BufWriter::with_capacity(1,2,7,16,64,300,8192) around the scripted sinks with a "
+            "permanent / Ok(0) / transient failure at every 5th (quick) / every (thorough) offset, and the REAL Package::write_file(path) in a forked child "
+            "whose RLIMIT_FSIZE stops the file after N bytes (SIGXFSZ ignored: partial write, then EFBIG) for every 13th (quick) / every (thorough) N on the "
+            "~1.2 KiB package (fits the 8 KiB buffer: only the final flush can fail) and a strided sweep on a ~20 KiB one (buffer flushes and direct writes). "
             "Non-trivial = the package parses; distinct = distinct request lines.",
     "exhaustive": False,
     "shrink": False,
     "shards": {"quick": 8, "thorough": 16},
     "trusted_base": ["std: Write::write_all, Read::read_exact, Take, Read::read_to_end, BufReader semantics (modelled in Model/Io.lean; exercised, not proved)",
+                     "std: BufWriter::{write_all, flush_buf, flush, drop} (modelled in Model/BufWriter.lean from library/std/src/io/buffered/bufwriter.rs; validated against std's BufWriter by the `wf` cases) "
+                     "and the kernel's RLIMIT_FSIZE behaviour for the `wfile` cases (short write up to the limit, then EFBIG)",
                      "the translation of the harness' scripted sinks / sources into model scripts (Driver/C14.lean mkPattern, same splitmix64 stream)"],
     "assumptions": COMMON_ASSUME + ["the sink obeys the Write contract (returns n <= buf.len()); the source obeys the Read contract "
                                     "(a non-empty read on a non-exhausted source returns >= 1 byte) - hypothesis ScriptWF of read_chunk_indep, shown necessary by an example"],
@@ -29,7 +36,9 @@ CFG = {
                   "(prog_all_writeAll) and with one plain write the claim is false (once_counterexample, by decide); sinks failing after N accepted bytes yield err with "
                   "exactly the first N bytes whatever the call grouping (write_failure_offset, grouping_independent); Package::parse over ANY chunking of the source "
                   "(read_exact / take().read_to_end / read_to_end models) equals the list-level parser of C01 (read_chunk_indep); an accepted input cut anywhere before "
-                  "its payload offset is rejected with the end-of-input error (truncated_is_error). Tied to the code by a differential run with scripted sinks and sources.",
+                  "its payload offset is rejected with the end-of-input error (truncated_is_error). Package::write_file (BufWriter of any capacity around a file of ANY behaviour, "
+                  "explicit flush, drop) leaves a prefix of the canonical bytes in the file and all of them when it returns Ok (write_file_prefix_or_all); before fix d2dbd7b it returned Ok "
+                  "with nothing written on a full device (write_file_old_witness). Tied to the code by a differential run with scripted sinks and sources.",
     "level_note": "Trusted: Lean kernel; std's write_all/read_exact/read_to_end contracts as modelled; model fidelity as exercised (result class, emitted length and hash "
                   "compared on every case; spec verdict computed from the canonical bytes alone).",
 }
